@@ -28,6 +28,7 @@ class Ctx:
         self.roots_analysed = 0; self.paths_analysed = 0; self.steps = 0
         self.scan_wall = 0.0
         self.internal = []
+        self.visited = set()   # vek bodies interpreted by any root of this check (crate-independent def-paths)
         self.elem = 'f32'      # 'f64' during the thorough tier's twin pass (every root re-instantiated with f64 elements)
 
     # ------------------------------------------------------------ analysis
@@ -59,6 +60,7 @@ class Ctx:
             res = sc.get(r.name)
             if res is None:
                 raise Internal('driver did not report root %s' % r.name)
+            self.visited |= set(res.d.get('visited', []))
             self.roots_analysed += 1; self.paths_analysed += len(res.paths); self.steps += res.steps
             if not res.ok and 'undefined behaviour' in res.status:
                 self.viol('ub/%s' % r.name, rule='no undefined behaviour on any explored path (out-of-bounds unchecked access)', where=r.code, found=res.status, expected='in-bounds accesses only')
@@ -98,6 +100,39 @@ class Ctx:
         self.counts[what] = count
         if count < minimum and not self.only:
             self.internal.append('floor not met: %s = %d < %d (a rule matching too few sites must not pass)' % (what, count, minimum))
+
+    # ------------------------------------------------------------ configuration pass
+    def config_invariance(self, cp):
+        """every vek body this check interpreted must have the same MIR in a release build with the stable channel cfg (section 6.6)"""
+        RULE = 'config: every vek body interpreted by this check has identical MIR in a release build with the stable-channel cfg (literals of debug_assert! masked), so the verdict transfers to the configurations users build'
+        RULE2 = 'config: code inside a debug_assert! invocation (absent from release builds) has no effect other than panicking'
+        cp.join()
+        for i, what in ((0, 'analysed configuration'), (1, 'release + stable-channel configuration')):
+            if cp.err[i] or cp.res[i] is None:
+                self.internal.append('configuration pass (%s) failed: %s' % (what, cp.err[i])); return
+            if cp.res[i].compile_error is not None:
+                err = first_error(cp.res[i].compile_error)
+                self.viol('cfg/build/%s' % what.replace(' ', '-'), rule='config: vek compiles in the %s' % what, where=err.get('where', ''), found=err.get('msg', ''), expected='compiles', detail=cp.res[i].compile_error[-3000:]); return
+            if len(cp.res[i].local) != 1:
+                self.internal.append('configuration pass (%s): %d local fact files' % (what, len(cp.res[i].local))); return
+        a, b = cp.res[0].local[0], cp.res[1].local[0]
+        keys = a['bodykeys']; fa, fb = a['fingerprints'], b['fingerprints']
+        dbg = dict(a.get('debug_assert_bodies', {})); dbg.update(b.get('debug_assert_bodies', {}))
+        n = 0; ndbg = 0
+        for v in sorted(self.visited):
+            if v not in keys: continue            # a body of num-traits / approx / core, or of a feature outside CONFIG_FEATURES
+            name, _pub, file, lo, hi = keys[v]
+            n += 1
+            where = '%s:%s-%s %s' % (file, lo, hi, name)
+            self.ob('cfg/%s/same-in-release-stable-build' % name, name in fb and fa.get(name) == fb.get(name), RULE, where, 'identical normalised MIR', 'differs between build configurations' if name in fb else 'body absent from the release/stable build')
+            if name in dbg:
+                ndbg += 1
+                self.ob('cfg/%s/debug-assert-pure' % name, not dbg[name][1], RULE2, where, 'no write, mutable borrow or move of anything but temporaries', dbg[name][1])
+        self.counts['config:bodies compared'] = n; self.counts['config:bodies with debug_assert'] = ndbg
+        self.counts['config:bodies of the crate'] = len(fa)
+        if n == 0 and not self.only and self.visited:
+            self.internal.append('configuration pass matched none of the %d interpreted bodies' % len(self.visited))
+        self.assumptions.append('configuration pass: %d interpreted vek bodies compared between the analysed build (debug assertions, cfg(nightly)) and a release build with cfg(stable); overflow checks kept on in both (integer overflow is outside every claim); other targets (pointer width, OS) are not compared' % n)
 
     # ------------------------------------------------------------ output
     def finish(self):
